@@ -467,7 +467,11 @@ RSP_BASE = [b"RSP POWERON 0\0", b"RSP POWEROFF 0\0", b"RSP ECHO 0\0", b"RSP MEAS
 
 @st.composite
 def trxcon_action(draw):
-    k = draw(st.sampled_from(["cmd", "cmd", "ctrl", "ctrl", "ctrl", "data", "data", "timer"]))
+    k = draw(st.sampled_from(["cmd", "cmd", "cmd", "ctrl", "ctrl", "rsp", "rsp", "data", "data", "timer"]))
+    if k == "rsp":
+        # a response that matches one of the commands in trxcon's queue - the head (on the wire) or a later one - resolved when the
+        # sequence runs from the driver's "queue" listing: "rsp <queue index> <status> <extra words>"
+        return "rsp %d %s %s" % (draw(st.integers(0, 4)), draw(st.sampled_from(["0", "0", "0", "-1", "1"])), draw(st.sampled_from(["-", "-", "-60", "x", "937000 -60"])))
     if k == "cmd":
         return draw(st.sampled_from(["cmd reset", "cmd poweron", "cmd poweroff", "cmd measure 10", "cmd measure 700", "cmd setfreq_h0 20",
                                      "cmd setslot 1 2", "cmd setta 5", "cmd setta -100", "cmd setfh 5 1 3 10 20 30",
@@ -523,6 +527,16 @@ def trxcon_oracle(case):
     try:
         t.req("open")
         for a in case["actions"]:
+            if a.startswith("rsp "):
+                _, idx, status, extra = a.split(" ", 3)
+                queue = [bytes.fromhex(l.split(" ")[1]) for l in t.req("queue") if l.startswith("Q ") and len(l) > 2]
+                if not queue:
+                    continue
+                c_ = queue[int(idx) % len(queue)].split(b" ", 2)
+                d = b"RSP " + (c_[1] if len(c_) > 1 else b"") + b" " + status.encode() + ((b" " + c_[2]) if len(c_) > 2 else b"") + \
+                    ((b" " + extra.encode()) if extra != "-" else b"") + b"\0"
+                a = "ctrl " + d.hex()
+                cl.add("matching-response" if int(idx) % len(queue) == 0 else "response-to-a-queued-command")
             out = trxif.TrxIf.parse(t.req(a))
             kind = a.split(" ")[0]
             if kind == "data" and out["burst_ind"] is not None:
